@@ -366,6 +366,10 @@ func checkC02(p *Prog, r *Report) {
 	checkTokenCodec(p, r)
 	checkBlockLengthSiblings(p, r)
 	checkCoversEveryByte(p, r)
+	checkWindowNotCached(p, r, "C02/WINDOW-NOT-CACHED")
+	if r.Prop != "C03" {
+		importShared(p, r, checkC03, "C03/HASH-SEES-ALL", "C02/OUTPUT-IS-STREAM", "the receiver writes exactly the bytes the token stream denotes, in order: every Write of receiveData goes to the one io.MultiWriter(out, h) and the pending file has no other use (no Seek, Truncate, WriteAt, no second writer) — the same clause as C03/HASH-SEES-ALL, here as a necessary condition of exact decoding", 4)
+	}
 	r.Trust("MD4 collision resistance (a strong match is taken as content equality, as in rsync)")
 	r.Uncovered("offset/length arithmetic of the window (mapStruct), the receiver's token*BlockLength arithmetic, chunking, rolling-checksum algebra: value-level, out of reach of structural rules")
 }
